@@ -1,6 +1,6 @@
-(* Model/Archive.v — what zipfs and tarfs have in common (C14): archives as aentry lists, the
+(* Model/Archive.v — what zipfs and tarfs have in common (C14): archives as entry lists, the
    path splitting both packages use, the directory index as a Go map of maps, and the
-   SPECIFICATION side of C14: the read-only byte-array view of one aentry (built on
+   SPECIFICATION side of C14: the read-only byte-array view of one entry (built on
    ByteFile.bf_step), the expected Stat answer and the expected directory listing.
    Definitions only. *)
 From AF Require Import Lib.Bytes Lib.Path Lib.Ops Model.ByteFile.
@@ -11,14 +11,15 @@ Local Open Scope Z_scope.
    header marks a directory, and the (uncompressed) bytes.  archive/zip and archive/tar are
    trusted to hand back exactly these three things (zip: File.Name, FileInfo().IsDir(),
    UncompressedSize64 = |content| and Open() yielding content; tar: Header.Name, Typeflag,
-   Header.Size = |content| and the aentry's reader yielding content). *)
+   Header.Size = |content| and the entry's reader yielding content). *)
+(* (the record is called aentry: "entry" is MemFs's snapshot record and both are extracted into one model.ml) *)
 Record aentry := mkEntry { ename : str; eisdir : bool; econtent : bytes }.
 Definition archive := list aentry.
 Definition esize (e : aentry) : Z := zlen (econtent e).
 
 (* zipfs/fs.go:18-27 = tarfs/fs.go:20-29  splitpath (filepath.ToSlash is the identity on Unix) *)
 Definition rooted_name (n : str) : str := if is_rooted n then n else SLASH :: n.
-(* the aentry's cleaned (absolute) path *)
+(* the entry's cleaned (absolute) path *)
 Definition cpath (n : str) : str := clean (rooted_name n).
 Definition splitpath (n : str) : str * str :=
   let '(d, f) := path_split (cpath n) in (clean d, f).
@@ -49,19 +50,19 @@ Definition idx_get (ix : index) (d f : str) : option aentry :=
   match alist_get d ix with Some m => alist_get f m | None => None end.
 
 (* ---------------------------------------------------------------- specification *)
-(* which aentry a path names: the one whose cleaned path splits the same way *)
+(* which entry a path names: the one whose cleaned path splits the same way *)
 Definition key_eqb (a b : str * str) : bool := beqb (fst a) (fst b) && beqb (snd a) (snd b).
 Definition ekey (e : aentry) : str * str := splitpath (ename e).
 Definition names_entry (p : str) (e : aentry) : bool := key_eqb (splitpath p) (ekey e).
-(* entries stored directly under directory d (d = a cleaned absolute path); an aentry whose own
+(* entries stored directly under directory d (d = a cleaned absolute path); an entry whose own
    name cleans to the root is not a member of anything *)
 Definition is_child_of (d : str) (e : aentry) : bool :=
   beqb (fst (ekey e)) d && negb (is_empty (snd (ekey e))).
 Definition spec_children (a : archive) (d : str) : list aentry := filter (is_child_of d) a.
-(* what Stat has to say about an aentry as far as the property goes *)
+(* what Stat has to say about an entry as far as the property goes *)
 Definition spec_stat (e : aentry) : bool * Z := (eisdir e, esize e).
 
-(* The read-only byte-array view of ONE aentry with any number of handles: ByteFile.bf_step on
+(* The read-only byte-array view of ONE entry with any number of handles: ByteFile.bf_step on
    read-only handles, plus three points where bf_step (written for mem.File) leaves a choice
    that the archive filesystems make differently and the property does not care about:
    - Open adds a fresh read-only handle at offset 0;
